@@ -55,6 +55,8 @@ def initial_state(ex, table, specs, contract, fi, cls):
         st.assume(r != NONE, st.heap.alive(r), cls_of(r) == table.class_ids[cls])
         args[params[0]] = self_v
         params = params[1:]
+        if contract.fresh_self:
+            st.assigned[r.get_id()] = set()
     defaults = table.defaults(fi.node)
     for p in params + [x.arg for x in a.kwonlyargs]:
         tys = contract.args.get(p)
